@@ -25,6 +25,8 @@ type ChainSpec struct {
 	Initial    int64   `json:"initial_height"`
 	ValChanges bool    `json:"val_changes"`
 	NonCommit  float64 `json:"p_non_commit_slot"`
+	FailedProb float64 `json:"p_failed_round0"` // heights decided in round 1 after a round 0 in which honest validators precommitted nil
+	ForceFail  []int   `json:"force_failed_round0_steps,omitempty"`
 }
 
 // BehAt is what a liar does when asked for height H.
@@ -73,8 +75,8 @@ func (p *PeerSpec) beh(h int64) BehAt {
 }
 
 // classOf fixes the class of every case index (fixed-length lists per tier).
-var classPattern = []string{"control", "tip", "tip", "mixed", "mixed", "tip", "inflated", "mixed", "tip", "mixed",
-	"control", "tip", "mixed", "inflated", "mixed"}
+var classPattern = []string{"control", "tip", "tip", "mixed", "nilfork", "tip", "inflated", "mixed", "tip", "mixed",
+	"control", "tip", "mixed", "inflated", "nilfork"}
 
 func classOf(tier string, idx int) string {
 	if tier == "thorough" && idx%10 == 9 {
@@ -117,6 +119,11 @@ type world struct {
 	F     map[string]bool // liar-controlled validators by address
 	first int64
 	last  int64
+	// failed[h]: round 0 of height h failed and the block was decided in round 1.  In round 0 every
+	// honest validator precommitted exactly once: the listed indexes (less than 1/3 of the power, and
+	// together with F at most 2/3) for the block that was later decided, all others for nil.  Those
+	// genuine round-0 signatures exist in the world and the liars may use them.
+	failed map[int64]map[int]bool
 }
 
 func (w *world) rec(h int64) *chaingen.HeightRec { return w.c.Hist[h] }
@@ -132,6 +139,7 @@ func buildChain(sp ChainSpec) *world {
 		model[a] = sp.Powers[i]
 		keyOf[a] = k
 	}
+	var failedSteps []int64
 	for i := 0; i < sp.Len; i++ {
 		vals := c.State.Validators
 		var txs []types.Tx
@@ -163,9 +171,21 @@ func buildChain(sp ChainSpec) *world {
 			}
 		}
 		flags := pickFlags(r, vals, sp.NonCommit)
-		c.MustStep(chaingen.StepPlan{Txs: txs, Flag: func(idx int, _ *types.Validator) types.BlockIDFlag { return flags[idx] }})
+		round := int32(0)
+		if r.Float64() < sp.FailedProb {
+			round = 1
+		}
+		for _, k := range sp.ForceFail {
+			if k == i {
+				round = 1
+			}
+		}
+		if round == 1 {
+			failedSteps = append(failedSteps, sp.Initial+int64(i))
+		}
+		c.MustStep(chaingen.StepPlan{Txs: txs, Round: round, Flag: func(idx int, _ *types.Validator) types.BlockIDFlag { return flags[idx] }})
 	}
-	w := &world{c: c, F: map[string]bool{}, first: sp.Initial, last: sp.Initial + int64(sp.Len) - 1}
+	w := &world{c: c, F: map[string]bool{}, first: sp.Initial, last: sp.Initial + int64(sp.Len) - 1, failed: map[int64]map[int]bool{}}
 	// liar coalition: greedily up to two validators, strictly below 1/3 at every height
 	var cands []string
 	seen := map[string]bool{}
@@ -186,6 +206,31 @@ func buildChain(sp ChainSpec) *world {
 		if !w.minority() {
 			delete(w.F, a)
 		}
+	}
+	// who precommitted what in the failed rounds
+	for _, h := range failedSteps {
+		vals := c.Hist[h].StateBefore.Validators
+		var total, pF, pS int64
+		for _, v := range vals.Validators {
+			total += v.VotingPower
+			if w.F[string(v.Address)] {
+				pF += v.VotingPower
+			}
+		}
+		voters := map[int]bool{}
+		if r.Intn(2) == 0 {
+			for _, i := range r.Perm(vals.Size()) {
+				v := vals.Validators[i]
+				if w.F[string(v.Address)] {
+					continue
+				}
+				if 3*(pS+v.VotingPower) < total && 3*(pS+v.VotingPower+pF) <= 2*total && r.Intn(2) == 0 {
+					voters[i] = true
+					pS += v.VotingPower
+				}
+			}
+		}
+		w.failed[h] = voters
 	}
 	return w
 }
@@ -333,7 +378,12 @@ func (w *world) randomBad(r *rand.Rand, h int64, slow bool) BehAt {
 	if h == w.first && (b.Kind == "altered" || b.Kind == "minority" || b.Kind == "otherBlockCommit") {
 		b.Kind = "wrongTxs" // the first block carries an empty commit
 	}
+	if _, ok := w.failed[h-1]; ok && h > w.first && r.Intn(2) == 0 {
+		b.Kind = "weakCommit"
+	}
 	switch b.Kind {
+	case "weakCommit":
+		b.Arg = r.Int63n(1 << 30)
 	case "altered":
 		b.Op, b.Slot, b.Tail = w.pickAlteration(r, h-1, allOps[r.Intn(len(allOps))], r.Intn(3)-1)
 	case "wrongHeader":
@@ -345,6 +395,16 @@ func (w *world) randomBad(r *rand.Rand, h int64, slow bool) BehAt {
 		}
 	}
 	return b
+}
+
+func setBeh(beh []BehAt, b BehAt) []BehAt {
+	for i := range beh {
+		if beh[i].H == b.H {
+			beh[i] = b
+			return beh
+		}
+	}
+	return append(beh, b)
 }
 
 func genScenario(c *verdict.Ctx, idx int) (*Scenario, *world) {
@@ -363,7 +423,18 @@ func genScenario(c *verdict.Ctx, idx int) (*Scenario, *world) {
 		}
 	}
 	sc.Chain = ChainSpec{Seed: r.Int63(), Powers: powers, Len: 8 + r.Intn(13), Initial: 1,
-		ValChanges: r.Intn(10) < 7, NonCommit: []float64{0, 0.3, 0.6}[r.Intn(3)]}
+		ValChanges: r.Intn(10) < 7, NonCommit: []float64{0, 0.3, 0.6}[r.Intn(3)], FailedProb: []float64{0, 0.15, 0.3}[r.Intn(3)]}
+	nilforkStep, nilforkWeak := 0, false
+	if sc.Class == "nilfork" {
+		// the height whose round 0 failed: anywhere (the liar goes on serving blocks above it), or
+		// directly below the liar's tip
+		nilforkStep = 1 + r.Intn(sc.Chain.Len-2)
+		if r.Intn(2) == 0 {
+			nilforkStep = sc.Chain.Len - 2
+		}
+		nilforkWeak = r.Intn(3) == 0
+		sc.Chain.ForceFail = []int{nilforkStep}
+	}
 	if sc.Class == "tip" {
 		sc.Chain.NonCommit = []float64{0, 0.5, 0.9}[r.Intn(3)]
 	}
@@ -419,6 +490,30 @@ func genScenario(c *verdict.Ctx, idx int) (*Scenario, *world) {
 		b := BehAt{H: T, Kind: "altered"}
 		b.Op, b.Slot, b.Tail = w.pickAlteration(r, T-1, want, wantTail)
 		sc.Peers = append(sc.Peers, PeerSpec{Name: "liar0", Base: w.first, Height: T, Beh: []BehAt{b}})
+	case "nilfork":
+		// Honest peers end just below the height g whose round 0 failed, so g and g+1 come from the
+		// liar: a minority block X at g and a next block whose LastCommit backs X with the liars' own
+		// round-0 precommits plus the honest validators' genuine round-0 precommits for NIL (fork); or
+		// the canonical block at g backed by a round-0 "commit" whose for-block power is at most 2/3
+		// while for-block + nil is above 2/3 (weak).
+		g := w.first + int64(nilforkStep)
+		sc.Peers = append(sc.Peers, honest("h0", g-1))
+		if r.Intn(3) == 0 {
+			sc.Peers = append(sc.Peers, honest("h1", g-1))
+		}
+		p := PeerSpec{Name: "liar0", Base: w.first, Height: T}
+		if r.Intn(3) == 0 && g+1 < T {
+			p.Height = g + 1 + r.Int63n(T-g)
+		}
+		if nilforkWeak {
+			p.Beh = []BehAt{{H: g + 1, Kind: "weakCommit", Arg: r.Int63n(1 << 30)}}
+		} else {
+			p.Beh = []BehAt{{H: g, Kind: "forkBlock"}, {H: g + 1, Kind: "nilBackedFork", Arg: r.Int63n(1 << 30)}}
+		}
+		sc.Peers = append(sc.Peers, p)
+		if sc.NodeStart >= g-1 {
+			sc.NodeStart = 0
+		}
 	case "mixed", "inflated", "timeout":
 		sc.Peers = append(sc.Peers, honest("h0", T))
 		if r.Intn(2) == 0 {
@@ -431,6 +526,12 @@ func genScenario(c *verdict.Ctx, idx int) (*Scenario, *world) {
 			for h := w.first; h <= p.Height; h++ {
 				if r.Float64() < pBad {
 					p.Beh = append(p.Beh, w.randomBad(r, h, sc.Class == "timeout"))
+				}
+			}
+			for g := w.first; g+1 <= p.Height; g++ {
+				if _, ok := w.failed[g]; ok && r.Intn(3) == 0 {
+					p.Beh = setBeh(p.Beh, BehAt{H: g, Kind: "forkBlock"})
+					p.Beh = setBeh(p.Beh, BehAt{H: g + 1, Kind: "nilBackedFork", Arg: r.Int63n(1 << 30)})
 				}
 			}
 			if sc.Class == "timeout" {
